@@ -313,6 +313,9 @@ def end_to_end(ctx, ok):
             r = pl.parse_enc_output(e) if e and e.startswith("ok") else None
             if r:
                 streams.append(("encoder", bytes.fromhex(r[0])))
+    import feedlib as fl
+    for label, data, _jpeg in fl.synth_vardct(ctx, 4 if ctx.quick else 40):
+        streams.append(("vardct", data))
     ample = 1 << 30
     clean = run_lines_robust([ctx.harness_bin("c13e")], [f"sweep {d.hex()} {ample}" for _, d in streams], per_line_timeout=60)
     lines, meta = [], []
@@ -363,5 +366,5 @@ def end_to_end(ctx, ok):
             ctx.violation("tracked-total-exceeded-limit", f"peak {pk} > limit {limit}", replay, key="c13e:peak")
         elif outst != 0 or left != limit:
             ctx.violation("budget-not-restored-after-drop", f"left {left} of {limit}, outstanding {outst}", replay, key="c13e:leak")
-        elif k is None and limit >= ample and not outcome.startswith("ok") and label in ("fixture", "encoder"):
+        elif k is None and limit >= ample and not outcome.startswith("ok") and label in ("fixture", "encoder", "vardct"):
             ctx.violation("valid-image-failed-under-ample-limit", outcome, replay, key="c13e:ample")
